@@ -513,6 +513,113 @@ def gen_misc(ex: Extraction, kp):
 
 GENERATORS.append(gen_misc)
 
+
+MUTATORS = {'append', 'extend', 'insert', 'update', 'add', 'pop', 'remove', 'clear', 'setdefault', 'sort', 'reverse', 'discard', 'popitem',
+            '__setitem__', 'appendleft', 'put'}
+
+
+def _root_name(node):
+    while isinstance(node, (ast.Attribute, ast.Subscript, ast.Call)):
+        node = node.value if not isinstance(node, ast.Call) else node.func
+    return node.id if isinstance(node, ast.Name) else None
+
+
+def write_sites_of(fn, qual):
+    """writes whose receiver is not a local variable created inside the function (parameters, self, globals)"""
+    params = {a.arg for a in fn.args.args + fn.args.kwonlyargs} | ({fn.args.vararg.arg} if fn.args.vararg else set()) | ({fn.args.kwarg.arg} if fn.args.kwarg else set())
+    local = set()
+    for n in ast.walk(fn):
+        if isinstance(n, (ast.Assign, ast.AnnAssign, ast.AugAssign)):
+            tgts = n.targets if isinstance(n, ast.Assign) else [n.target]
+            for t in tgts:
+                for sub in ast.walk(t):
+                    if isinstance(sub, ast.Name) and isinstance(sub.ctx, ast.Store):
+                        local.add(sub.id)
+        elif isinstance(n, (ast.For, ast.comprehension)):
+            for sub in ast.walk(n.target):
+                if isinstance(sub, ast.Name):
+                    local.add(sub.id)
+        elif isinstance(n, ast.With):
+            for it in n.items:
+                if it.optional_vars is not None:
+                    for sub in ast.walk(it.optional_vars):
+                        if isinstance(sub, ast.Name):
+                            local.add(sub.id)
+    local -= params
+    out = []
+    for n in ast.walk(fn):
+        tgts = []
+        if isinstance(n, ast.Assign):
+            tgts = n.targets
+        elif isinstance(n, (ast.AugAssign, ast.AnnAssign)):
+            tgts = [n.target]
+        elif isinstance(n, ast.Delete):
+            tgts = n.targets
+        for t in tgts:
+            for sub in ([t] if not isinstance(t, (ast.Tuple, ast.List)) else t.elts):
+                if isinstance(sub, (ast.Attribute, ast.Subscript)):
+                    r = _root_name(sub)
+                    if r not in local:
+                        out.append(f'{qual}: {ast.unparse(sub)} =')
+        if isinstance(n, ast.Call):
+            if isinstance(n.func, ast.Attribute) and n.func.attr in MUTATORS:
+                r = _root_name(n.func.value)
+                if r not in local:
+                    out.append(f'{qual}: {ast.unparse(n.func)}()')
+            if isinstance(n.func, ast.Name) and n.func.id in ('setattr', 'delattr'):
+                r = _root_name(n.args[0]) if n.args else None
+                if r not in local:
+                    out.append(f'{qual}: {n.func.id}({ast.unparse(n.args[0]) if n.args else ""}, ...)')
+    return out
+
+
+READ_ONLY_SCOPE = {
+    'kernpy/core/exporter.py': ['Exporter', 'ExportOptions', 'HeaderTokenGenerator', 'empty_row'],
+    'kernpy/core/document.py': ['Document.get_header_stage', 'Document.get_leaves', 'Document.get_spine_count', 'Document.get_first_measure', 'Document.measures_count',
+                                'Document.get_metacomments', 'Document.tokens_to_encodings', 'Document.get_all_tokens', 'Document.get_all_tokens_encodings',
+                                'Document.get_unique_tokens', 'Document.get_unique_token_encodings', 'Document.get_voices', 'Document.get_header_nodes',
+                                'Document.get_spine_ids', 'Document.frequencies', 'Document.match', 'Document.__iter__', 'Document.__next__',
+                                'Node.dfs', 'Node.dfs_iterative', 'Node.count_nodes_by_stage', 'MultistageTree.dfs', 'MultistageTree.dfs_iterative',
+                                'MetacommentsTraversal', 'TokensTraversal', 'TraversalFactory'],
+    'kernpy/core/generic.py': ['Generic.export', 'Generic.get_spine_types', 'Generic.parse_options_to_ExportOptions', 'Generic.store_graph'],
+    'kernpy/io/public.py': ['dumps', 'spine_types', 'is_monophonic', 'graph'],
+    'kernpy/core/tokens.py': ['TokenCategory', 'TokenCategoryHierarchyMapper', 'SimpleToken.export', 'ErrorToken.export', 'HeaderToken.export', 'CompoundToken.export',
+                              'NoteRestToken.export', 'ChordToken.export', 'BoundingBoxToken.export', 'MHXMToken.export', 'AbstractToken.__str__', 'AbstractToken.__hash__',
+                              'SpineOperationToken.is_cancelled_at'],
+    'kernpy/core/tokenizers.py': ['Encoding', 'Tokenizer', 'KernTokenizer', 'EkernTokenizer', 'BekernTokenizer', 'BkernTokenizer', 'AEKernTokenizer', 'AKernTokenizer',
+                                  'TokenizerFactory'],
+    'kernpy/core/graphviz_exporter.py': ['GraphvizExporter'],
+    'kernpy/core/gkern.py': ['PositionInStaff', 'PitchPositionReferenceSystem', 'Clef', 'GClef', 'F3Clef', 'F4Clef', 'C1Clef', 'C2Clef', 'C3Clef', 'C4Clef', 'ClefFactory',
+                             'Staff', 'GKernExporter', 'gkern_to_g_clef_pitch', 'pitch_to_gkern_string', 'DiatonicPitch'],
+    'kernpy/core/pitch_models.py': ['AgnosticPitch', 'PitchImporter', 'HumdrumPitchImporter', 'PitchImporterFactory', 'PitchExporter', 'HumdrumPitchExporter',
+                                    'PitchExporterFactory'],
+}
+
+
+def gen_write_sites(ex: Extraction, kp):
+    sites = []
+    for rel, names in READ_ONLY_SCOPE.items():
+        t = parse(rel)
+        mod = rel.split('/')[-1][:-3]
+        for name in names:
+            node = find_def(t, *name.split('.'))
+            if node is None:
+                ex.problem(f'read-only scope: {rel}:{name} not found')
+                continue
+            fns = [node] if isinstance(node, (ast.FunctionDef, ast.AsyncFunctionDef)) else \
+                [n for n in ast.walk(node) if isinstance(n, (ast.FunctionDef, ast.AsyncFunctionDef))]
+            for fn in fns:
+                qual = f'{mod}.{name}' if fn is node else f'{mod}.{name}.{fn.name}'
+                sites += write_sites_of(fn, qual)
+    sites = sorted(set(sites))
+    prev = ex.files.get('WriteSites.lean', '')
+    body = ['def readOnlyWriteSites : List Str := ' + llist([lstr(x) for x in sites])]
+    ex.files['WriteSites.lean'] = prev.replace('\nend KM.Gen\n', '\n' + '\n\n'.join(body) + '\n\nend KM.Gen\n')
+    ex.facts['read_only_write_sites'] = sites
+
+
+GENERATORS.append(gen_write_sites)
+
 # ---- keep this block last
 if __name__ == '__main__':
     ex = run()
